@@ -188,6 +188,12 @@ func (g *pgen) corpusC03(start int) []*ConvSpec {
 	add([]Field{{"X", i}, {"Z", i}}, []Field{{"y", i}, {"Z", i}}, []string{"ignoreUnexported"}, []string{"map X y"})
 	out[len(out)-1].Methods[0].Fields["y"] = &fieldSet{Source: "X"}
 	add([]Field{{"X", i}, {"Z", i}}, []Field{{"y", i}, {"Z", i}}, nil, nil) // unmapped: refused as well
+	// a func-typed FIELD is a value, not a method to be called: func() string -> string has no rule; the identical func
+	// type is handed through with skipCopySameType and refused without it
+	fn := tOther(1, 9)
+	add([]Field{{"G", fn}, {"Z", i}}, []Field{{"G", str}, {"Z", i}}, nil, nil)
+	add([]Field{{"G", fn}, {"Z", i}}, []Field{{"G", fn}, {"Z", i}}, []string{"skipCopySameType"}, nil)
+	add([]Field{{"G", fn}, {"Z", i}}, []Field{{"G", fn}, {"Z", i}}, nil, nil)
 	return out
 }
 
